@@ -112,7 +112,7 @@ func freshnessCheck(an *analysis, T int) *vsched.Violation {
 	fetches := map[string]fetch{}
 	for _, cl := range an.Calls {
 		ri := an.Reqs[cl.Call.Rid]
-		fetches[fmt.Sprint(cl.Call.Serial)] = fetch{cl.Call.ClockBegin, ri.Res.ClockEnd}
+		fetches[fmt.Sprint(cl.Call.Serial)] = fetch{cl.Call.ClockEnd, ri.Res.ClockEnd} // obtained between the origin's hand-over and the end of the fetching request
 	}
 	for _, rid := range an.Order {
 		r := an.Reqs[rid].Res
